@@ -211,13 +211,17 @@ structure CooOut where
   alloc : Nat
   deriving Repr
 
+/-- the row loop of `_dot_coo_coo`: `(sums, the (row, col, value) written, in order)` -/
+def dotCooCooLoop (nRow nCol : Nat) (A B : CSR) : List Int × List (Nat × Nat × Int) :=
+  (List.range nRow).foldl (fun (st : List Int × List (Nat × Nat × Int)) i =>
+    let r := csrCsrRow nCol (A.row i) B st.1
+    (r.1.sums, st.2 ++ r.2.map fun e => (i, e.1, e.2))) (List.replicate nCol 0, [])
+
 /-- `_dot_coo_coo(out_shape, a_coords, b_coords, a_data, b_data, a_indptr, b_indptr)`;
 `A = (a_indptr, a_coords[1], a_data)`, same for `B`. -/
 def dotCooCoo (nRow nCol : Nat) (A B : CSR) : CooOut :=
   let alloc := csrCsrCountNnz nRow nCol A B
-  let st := (List.range nRow).foldl (fun (st : List Int × List (Nat × Nat × Int)) i =>
-    let r := csrCsrRow nCol (A.row i) B st.1
-    (r.1.sums, st.2 ++ r.2.map fun e => (i, e.1, e.2))) (List.replicate nCol 0, [])
+  let st := dotCooCooLoop nRow nCol A B
   { rows := st.2.map (·.1), cols := st.2.map (·.2.1), data := st.2.map (·.2.2), alloc := alloc }
 
 /-- the index pointer `_dot` computes for a COO operand: `cumsum(bincount(coords[0], minlength=n))` -/
